@@ -23,7 +23,8 @@ pub struct Schedule {
   pub hash_seed: u64,
   /// FIFO (false) or LIFO (true) choice of the waiter woken by notify_one
   pub notify_lifo: bool,
-  /// inject spurious condvar wake-ups (3 % of the scheduling steps)
+  /// an imperfect platform: spurious condvar wake-ups (3 % of the scheduling steps),
+  /// spurious returns of thread::park (15 %) and a thread start latency of 1 us
   pub spurious: bool,
   /// PCT (probabilistic concurrency testing): (seed, depth d, expected number of choice
   /// points k): every thread gets a random priority, the highest-priority enabled thread
@@ -771,7 +772,15 @@ fn thread_main(exec: Arc<Exec>, tid: usize, body: Box<dyn FnOnce() + Send>) {
     !st.aborted
   };
   if start {
-    let r = catch_unwind(AssertUnwindSafe(body));
+    // an imperfect platform (schedules with spurious wake-ups) also starts threads late: one
+    // microsecond of virtual time passes before a new thread runs its first instruction
+    let late = lock_state(&exec).sched.spurious;
+    let r = catch_unwind(AssertUnwindSafe(move || {
+      if late {
+        sleep_ns(1_000);
+      }
+      body()
+    }));
     let mut st = lock_state(&exec);
     let was_aborted = st.aborted;
     if let Err(p) = r {
